@@ -456,3 +456,61 @@ theorem index_src_inB (dims : Shape) (items : List Ix) (R : IndexResult) (h : in
   · rw [← hshape]; exact (mem_coords_iff_inB _ c).mp hc
 
 end TdVerif.C03
+
+namespace TdVerif.C03
+open TorchSpec Td
+
+/-- write-back, frame: a position none of whose window cells was written keeps its content -/
+theorem writeThrough_frame (R : IndexResult) (w : List Nat → Option (List Nat)) (p : List Nat)
+    (h : ∀ q ∈ coords R.shape, R.src q = p → w q = none) : writeThrough R w p = none := by
+  unfold writeThrough
+  cases hf : (coords R.shape).reverse.find? (fun q => R.src q == p) with
+  | none => rfl
+  | some q =>
+    have hq := List.mem_of_find?_eq_some hf
+    have hs := List.find?_some hf
+    simp only [Option.bind_some]
+    exact h q (by simpa using hq) (by simpa using hs)
+
+/-- write-back, hit: when the window does not repeat an element, the source position of a window cell receives that cell -/
+theorem writeThrough_hit (R : IndexResult) (w : List Nat → Option (List Nat)) (q : List Nat)
+    (hinj : ∀ q1 ∈ coords R.shape, ∀ q2 ∈ coords R.shape, R.src q1 = R.src q2 → q1 = q2)
+    (hq : q ∈ coords R.shape) : writeThrough R w (R.src q) = w q := by
+  unfold writeThrough
+  cases hf : (coords R.shape).reverse.find? (fun q' => R.src q' == R.src q) with
+  | none =>
+    rw [List.find?_eq_none] at hf
+    exact absurd (by simp) (hf q (by simpa using hq))
+  | some q' =>
+    have hq' := List.mem_of_find?_eq_some hf
+    have hs := List.find?_some hf
+    have : q' = q := hinj q' (by simpa using hq') q hq (by simpa using hs)
+    subst this; rfl
+
+theorem mapM_ok_inv {α β : Type} {f : α → Except Err β} : ∀ (l : List α) (bs : List β),
+    l.mapM f = .ok bs → Forall2 (fun a b => f a = .ok b) l bs := by
+  intro l
+  induction l with
+  | nil => intro bs h; simp [pure, Except.pure] at h; subst h; exact Forall2.nil
+  | cons x r ih =>
+    intro bs h
+    simp only [List.mapM_cons, bind, Except.bind] at h
+    cases hx : f x with
+    | error e => simp [hx] at h
+    | ok b =>
+      simp only [hx] at h
+      cases hr : r.mapM f with
+      | error e => simp [hr] at h
+      | ok bs' =>
+        simp only [hr, pure, Except.pure, Except.ok.injEq] at h
+        subst h
+        exact Forall2.cons hx (ih bs' hr)
+
+theorem Forall2.imp {α β : Type} {R S : α → β → Prop} {l₁ : List α} {l₂ : List β}
+    (h : Forall2 R l₁ l₂) (hi : ∀ a b, R a b → S a b) : Forall2 S l₁ l₂ := by
+  induction h with
+  | nil => exact Forall2.nil
+  | cons hab _ ih => exact Forall2.cons (hi _ _ hab) ih
+
+
+end TdVerif.C03
